@@ -115,7 +115,8 @@ p["units"] += [
     K("h_bloom::bloom_stable_m64k2", "quick", "Bloom: insert keeps m and the block count"), K("h_bloom::bloom_union_m64k2", "quick", "Bloom: union keeps m and the block count"),
     K("h_reservoir::reservoir_step_k3", "quick", "reservoir: len <= k, capacity unchanged once full"),
     K("h_tdigest::td_insert_step_c2b1", "quick", "TDigest: backlog length <= max_backlog_size after insert"),
-    K("h_tdigest::td_insert_merges_backlog0", "quick", "TDigest: backlog 0 merges at once", mem_class_gb=8, timeout_s=2400),
+    K("h_tdigest::td_insert_merges_backlog0", "quick", "TDigest: backlog 0 merges at once", mem_class_gb=10, timeout_s=2400, mem_gb=30),
+    K("h_tdigest::td_insert_merges_backlog0_fuse", "quick", "TDigest: with K0 delta=1.1 the digest collapses into ONE centroid whatever the weights (smallest instance of the centroid-count bound)", mem_class_gb=10, timeout_s=2400, mem_gb=30),
     M("ck_insert_bs2nb2k2", "quick", "cuckoo: insert (Ok and Err paths) never changes the table length (array contract: out-of-range writes are panic paths, all infeasible)", "bs2nb2k2", model="cuckoo", op="insert", bs=2, nb=2, kicks=2, need_witness=["ok", "err"]),
     M("heap_add_step", "quick", "CMSHeap: |tracked| <= k is part of the invariant preserved by add", "K=3, k<=2", model="heap", what_m="add", kmax=2, need_witness=["ret"]),
 ]
@@ -175,11 +176,11 @@ M_ASSUME = [
 p = prop("C14", engine="mir2smt+kani",
          technique="symbolic execution of the crate's MIR into SMT (z3), one inductive step from an arbitrary valid table; Kani cross-check of the same step on the compiled code",
          functions=["CuckooFilter::{insert,delete,query,start(contract),insert_internal,write_to_bucket,has_in_bucket,remove_from_bucket,restore_state,len,is_empty}"],
-         bounds={"quick": "(bucketsize,n_buckets)=(2,2): 4 slots, 64-bit symbolic slot contents/fingerprints, all hash functions, all RNG outcomes, eviction chains <= 2 and <= 4",
+         bounds={"quick": "(bucketsize,n_buckets)=(2,2): 4 slots with eviction chains <= 2 and <= 4, and (2,4): 8 slots / 4 buckets with chains <= 2; 64-bit symbolic slot contents/fingerprints, all hash functions, all RNG outcomes",
                  "thorough": "adds (2,4) and (4,2) [8 slots] and chains <= 6"},
          outside=["tables larger than 8 slots", "eviction chains longer than 6 (the relocation argument is per kick)", "the packed IntVector bit layout (Kani cross-check covers it at l=16, 4 slots)"],
          assumptions=M_ASSUME)
-for (bs, nb, kicks, tier) in [(2, 2, 2, "quick"), (2, 2, 4, "quick"), (2, 4, 2, "thorough"), (4, 2, 2, "thorough"), (2, 2, 6, "thorough")]:
+for (bs, nb, kicks, tier) in [(2, 2, 2, "quick"), (2, 2, 4, "quick"), (2, 4, 2, "quick"), (4, 2, 2, "thorough"), (2, 2, 6, "thorough")]:
     tag = "bs%dnb%dk%d" % (bs, nb, kicks)
     p["units"].append(M("ck_insert_" + tag, tier, "insert(x) from an arbitrary valid table: Ok => Ok(true), len+1, class count +1 (others unchanged); Err => len and all class counts unchanged; n<bucketsize => Ok",
                         tag, model="cuckoo", op="insert", bs=bs, nb=nb, kicks=kicks, need_witness=["ok", "err"], timeout_s=3600))
@@ -218,7 +219,7 @@ p = prop("C12", engine="mir2smt+kani",
                  "thorough": "adds 8-slot cuckoo inserts, chains <=6, union chains <=2"},
          outside=["cuckoo tables > 8 slots / union on > 4 slots", "QF union on 4 slots (engine M case split not built yet)"],
          assumptions=M_ASSUME + QF_ASSUME + ["observational comparison for the cuckoo filter: len, and for an arbitrary class c the number of stored copies (determines query and the number of possible deletes); raw equality to enc(X) for the quotient filter (sufficient, not necessary)"])
-for (bs, nb, kicks, tier) in [(2, 2, 2, "quick"), (2, 2, 4, "quick"), (2, 4, 2, "thorough"), (4, 2, 2, "thorough"), (2, 2, 6, "thorough")]:
+for (bs, nb, kicks, tier) in [(2, 2, 2, "quick"), (2, 2, 4, "quick"), (2, 4, 2, "quick"), (4, 2, 2, "thorough"), (2, 2, 6, "thorough")]:
     tag = "bs%dnb%dk%d" % (bs, nb, kicks)
     p["units"].append(M("ck_insert_" + tag, tier, "failed insert leaves len and every class count unchanged (Err paths; Ok paths checked too)", tag,
                         model="cuckoo", op="insert", bs=bs, nb=nb, kicks=kicks, need_witness=["ok", "err"], timeout_s=3600))
@@ -329,7 +330,7 @@ p["units"] += [
     M("qf_union_q2r2_s1111", "quick", "QF union at 4 slots (other = four singleton runs)", "(2,2) shape [1,1,1,1]", model="qf", op="union", bq=2, br=2, shape=[1, 1, 1, 1], timeout_s=3600),
     K("h_qf::qf_member_stays_q1r2", "thorough", "QF member stays", "(1,2)", mem_class_gb=8, timeout_s=2400),
 ]
-for (bs, nb, kicks, tier) in [(2, 2, 2, "quick"), (2, 2, 4, "quick"), (2, 4, 2, "thorough"), (2, 2, 6, "thorough")]:
+for (bs, nb, kicks, tier) in [(2, 2, 2, "quick"), (2, 2, 4, "quick"), (2, 4, 2, "quick"), (2, 2, 6, "thorough")]:
     tag = "bs%dnb%dk%d" % (bs, nb, kicks)
     p["units"].append(M("ck_insert_" + tag, tier, "cuckoo: Ok(insert x) => a copy of class(x) is stored; every other class keeps its copies (Ok and Err)", tag,
                         model="cuckoo", op="insert", bs=bs, nb=nb, kicks=kicks, need_witness=["ok", "err"], timeout_s=3600))
